@@ -129,6 +129,8 @@ class Recorder:
         if ed is not None:
             try:
                 info["ed_ok"] = ed.transition is tr and ed.machine is machine
+                info["ed_view"] = [getattr(ed.state, "id", None), getattr(ed.source, "id", None),
+                                   getattr(ed.target, "id", None), str(ed.event)]
             except Exception:  # noqa: BLE001
                 info["ed_ok"] = False
         info["model_ok"] = (kwargs.get("model") is machine.model) if machine is not None else None
